@@ -22,7 +22,17 @@ package main
 // transition one more transition is attempted with no failure scripted (retry of
 // the same event if it was cancelled, otherwise the next legal event); it is
 // judged by the first line of the table. A child that dies is reported by the
-// parent as CRASH.
+// parent as CRASH; a transition that never returns is reported as HANG (bounded
+// progress, see reportHang) and ends the batch.
+//
+// Further case classes: late-report cases (a hook task reports exit 0 after the
+// environment has accounted it as timed out, a gated sibling of the same trigger
+// command still pending: the outcome must be the timeout outcome) and sibling
+// cases (one failing critical call, healthy gated calls awaited at the same
+// point). For every case two clauses of C08 that do not depend on failures are
+// checked as well: INTERVAL (a started hook has returned before the state machine
+// passes its await point; points skipped after a critical failure are taken out)
+// and LEAK (a started call is collected or cancelled by the teardown).
 
 import (
 	"fmt"
@@ -56,16 +66,17 @@ var prefixes = map[string][][]string{
 }
 var targetEvents = []string{"CONFIGURE", "START_ACTIVITY", "STOP_ACTIVITY", "RESET", "DEPLOY"}
 
-// c09Sizes: indices [0,singles) enumerate single failures, [singles,total-late) are
-// multi-failure sets, the last `late` cases are late-report cases (crash-only).
-func c09Sizes(tier string) (singles, total, late int) {
+// c09Sizes: indices [0,singles) enumerate single failures, then multi-failure sets;
+// the last `late` cases are late-report cases, the `sib` cases before them are
+// sibling cases (one failing critical call, gated healthy calls at the same await point).
+func c09Sizes(tier string) (singles, total, late, sib int) {
 	if tier == "thorough" {
-		return 2400, 10000, 200
+		return 2400, 10000, 300, 600
 	}
-	return 96, 304, 8
+	return 96, 336, 16, 24
 }
 
-func genC09(c *vlib.Ctx, idx int64, singles, total, late int) HookCase {
+func genC09(c *vlib.Ctx, idx int64, singles, total, late, sib int) HookCase {
 	r := c.SubRand(idx)
 	hc := HookCase{Prop: "C09", Idx: idx, FollowUp: true}
 	hc.GoMaxProcs = 1
@@ -76,14 +87,22 @@ func genC09(c *vlib.Ctx, idx int64, singles, total, late int) HookCase {
 	var crits []bool
 	var m int
 	isLate := int(idx) >= total-late
+	isSib := !isLate && int(idx) >= total-late-sib
 	if isLate {
-		// a hook task that reports after its timeout while a (gated) sibling of the same
-		// trigger command is still running; judged only by "the core survives"
+		// a hook task that reports (exit 0) after the environment has accounted it as timed
+		// out, while a gated sibling of the same trigger command is still running: the
+		// outcome is the timeout outcome whatever arrives later
 		hc.LateReport = true
 		hc.FollowUp = false
 		kinds = []envlab.Behaviour{envlab.TaskLateReport}
-		crits = []bool{r.Intn(2) == 0}
-		m = failMoments[r.Intn(4)]
+		crits = []bool{r.Intn(4) != 0}
+		m = failMoments[int(idx)%4]
+	} else if isSib {
+		// one failing critical call and healthy gated calls awaited at the same point
+		hc.Sibling = true
+		kinds = []envlab.Behaviour{envlab.CallError}
+		crits = []bool{true}
+		m = failMoments[int(idx)%4]
 	} else if int(idx) < singles {
 		hc.Enumerated = true
 		combo := int(idx) % 48
@@ -183,6 +202,29 @@ func genC09(c *vlib.Ctx, idx int64, singles, total, late int) HookCase {
 		f := false
 		hc.Hooks = append(hc.Hooks, envlab.HookSpec{Name: "sib", Kind: envlab.Task, Trigger: hc.FailPoint, Critical: &f, Gate: true})
 	}
+	if isSib {
+		// role order decides the order in which the calls are listed for the await:
+		// healthy calls after the failing one (always at least one), sometimes one before,
+		// sometimes one started at an earlier point of the same transition
+		var pre, post []envlab.HookSpec
+		f := false
+		post = append(post, envlab.HookSpec{Name: "sibA", Kind: envlab.Call, Trigger: hc.FailPoint, Gate: true})
+		if r.Intn(2) == 0 {
+			post = append(post, envlab.HookSpec{Name: "sibB", Kind: envlab.Call, Trigger: hc.FailPoint, Await: hc.FailPoint, Critical: &f, Gate: r.Intn(2) == 0})
+		}
+		if r.Intn(3) == 0 {
+			pre = append(pre, envlab.HookSpec{Name: "sibC", Kind: envlab.Call, Trigger: hc.FailPoint, Critical: &f, Gate: true})
+		}
+		first := envlab.Expr(tocc.Moments()[envlab.MBefore], -100)
+		if r.Intn(2) == 0 && !sameExpr(first, hc.FailPoint) {
+			pre = append(pre, envlab.HookSpec{Name: "early", Kind: envlab.Call, Trigger: first, Await: hc.FailPoint, Critical: &f, Gate: true})
+		}
+		hc.Hooks = append(append(pre, hc.Hooks...), post...)
+		if r.Intn(3) == 0 {
+			hc.Hooks = append(hc.Hooks, sentinels(hc.Walk)...)
+		}
+		return hc
+	}
 	// background: never-failing hooks over the walk and a plausible continuation
 	cont := append([]string{}, hc.Walk...)
 	st := tocc.Dst
@@ -225,7 +267,7 @@ func runC09() {
 		dumpOutcome(out, checkC09(out, lab))
 		return
 	}
-	singles, total, late := c09Sizes(c.Tier)
+	singles, total, late, sib := c09Sizes(c.Tier)
 	// interleave: batch b takes indices b, b+nbatch, ... so that every batch has singles and multis
 	nb := c.NBatch
 	if nb < 1 {
@@ -233,12 +275,15 @@ func runC09() {
 	}
 	first := true
 	for i := c.Batch; i < total; i += nb {
-		hc := genC09(c, int64(i), singles, total, late)
+		hc := genC09(c, int64(i), singles, total, late, sib)
 		id := c.Case(hc)
 		out, lab, err := execC09(w, hc)
 		if err != nil {
 			c.Inconclusive(fmt.Sprintf("case %d: %v", i, err))
 			continue
+		}
+		if reportHang(c, out, id) {
+			return // the environment is stuck with its transition mutex held: stop the batch cleanly
 		}
 		if out.Anomalies > 0 {
 			c.Inconclusive(fmt.Sprintf("case %d: %d lab anomalies: %s", i, out.Anomalies, firstAnomaly(out.Records)))
@@ -268,8 +313,20 @@ func execC09(w *envlab.World, hc HookCase) (*caseOutcome, *envlab.Lab, error) {
 	}
 	defer lab.Close()
 	out := &caseOutcome{Case: hc}
+	finish := func() (*caseOutcome, *envlab.Lab, error) {
+		out.Occs = lab.Occurrences()
+		out.Records = lab.Records()
+		out.Anomalies = lab.Anomalies()
+		out.GatedOpen = lab.GatedObservedOpen()
+		out.LateUnconfirmed = lab.LateUnconfirmed()
+		return out, lab, nil
+	}
 	for _, ev := range hc.Walk {
 		res := lab.Transition(ev, nil)
+		if res.Hang != "" {
+			out.Hang, out.HangEvent = res.Hang, ev
+			return finish()
+		}
 		out.Results = append(out.Results, res)
 		if res.Occ.K < hc.Target && res.Err != nil {
 			break // prefix failed: judged, nothing more to drive
@@ -294,15 +351,19 @@ func execC09(w *envlab.World, hc HookCase) (*caseOutcome, *envlab.Lab, error) {
 			}
 		}
 		if next != "" {
-			out.Results = append(out.Results, lab.Transition(next, nil))
+			res := lab.Transition(next, nil)
+			if res.Hang != "" {
+				out.Hang, out.HangEvent = res.Hang, next
+				return finish()
+			}
+			out.Results = append(out.Results, res)
 		}
 	}
 	out.Teardown = lab.Teardown(true)
-	out.Occs = lab.Occurrences()
-	out.Records = lab.Records()
-	out.Anomalies = lab.Anomalies()
-	out.GatedOpen = lab.GatedObservedOpen()
-	return out, lab, nil
+	if out.Teardown.Hang != "" {
+		out.Hang, out.HangEvent = out.Teardown.Hang, "DESTROY"
+	}
+	return finish()
 }
 
 func countC09(c *vlib.Ctx, out *caseOutcome) {
@@ -339,6 +400,12 @@ func countC09(c *vlib.Ctx, out *caseOutcome) {
 	}
 	if hc.LateReport {
 		c.Count("late_report_cases", 1)
+		if out.LateUnconfirmed == 0 {
+			c.Count("late_report_cases_judged", 1)
+		}
+	}
+	if hc.Sibling {
+		c.Count("sibling_cases", 1)
 	}
 	if len(hc.Failing) > 1 {
 		c.Count("multi_failure_sets", 1)
@@ -406,7 +473,7 @@ func failuresOf(hc HookCase, k int, lab *envlab.Lab) []failure {
 		}
 		tok := envlab.FailureText(h.Name, h.Behaviour)
 		if h.Kind == envlab.Task {
-			tok = lab.TaskName(h.Name)
+			tok = lab.TaskName(h.Name) // exit code, involuntary termination, timeout (also when a report arrives later)
 		}
 		fs = append(fs, failure{h.Name, h.Behaviour, h.IsCritical(), tok})
 	}
@@ -430,9 +497,9 @@ func kindsClass(fs []failure, crit bool) string {
 
 func checkC09(out *caseOutcome, lab *envlab.Lab) []violation {
 	var vs []violation
-	if out.Case.LateReport {
-		// whether the late report or the timer wins is a matter of timing; the only
-		// thing required is that the core survives (a dead child is reported by the parent)
+	if out.Case.LateReport && out.LateUnconfirmed > 0 {
+		// the lab could not confirm that the timeout had been accounted before the late
+		// report was handed over (log message not seen): only "the core survives" is required
 		return nil
 	}
 	add := func(rule, class, detail string) { vs = append(vs, violation{rule, class, detail}) }
@@ -442,7 +509,58 @@ func checkC09(out *caseOutcome, lab *envlab.Lab) []violation {
 		specs[h.Name] = h
 	}
 	occs := out.Occs
-	ivs, _ := buildInvocations(specs, occs, out.Records, nil)
+	// points the walk did not go through: after a critical failure the rest of the pass,
+	// and at before_/leave_ the rest of the transition
+	var visited visitedFunc
+	if hc.Target < len(occs) {
+		anyCrit := false
+		for _, f := range failuresOf(hc, hc.Target, lab) {
+			anyCrit = anyCrit || f.Critical
+		}
+		tn, tw := envlab.ParseExpr(hc.FailPoint)
+		if m := occs[hc.Target].MomentIndex(tn); anyCrit && m >= 0 {
+			x := envlab.Pos{K: hc.Target, M: m, W: tw}
+			visited = func(p envlab.Pos) bool {
+				if p.K != x.K || !x.Less(p) {
+					return true
+				}
+				if x.M == envlab.MBefore || x.M == envlab.MLeave {
+					return false
+				}
+				return !(p.M == x.M && (p.W < 0) == (x.W < 0))
+			}
+		}
+	}
+	ivs, idx := buildInvocations(specs, occs, out.Records, visited)
+
+	// Two clauses of C08 that hold whatever fails: the state machine does not pass the
+	// await point of a started hook while that hook is still running (INTERVAL, same
+	// monotonicity check as C08 with the skipped points taken out), and a started call
+	// is collected or cancelled by the teardown (LEAK).
+	{
+		var maxL envlab.Pos
+		var maxRec envlab.Record
+		haveL := false
+		seen := map[string]bool{}
+		for _, r := range out.Records {
+			b := boundsOf(r, occs, idx, specs)
+			if b.hasU && haveL && b.U.Less(maxL) && r.Kind == envlab.KHookEnd {
+				iv := idx[envlab.InvRef{Hook: r.Hook, Inv: r.Inv}]
+				class := string(iv.Spec.Kind) + ":" + iv.Rel
+				if !seen[class] {
+					seen[class] = true
+					add("INTERVAL", class, fmt.Sprintf("hook %s/%d (trigger %s at %v, await %s at %v) was still open when the state machine had already reached %v (%s); it returned only at #%d",
+						iv.Hook, iv.Inv, iv.Spec.Trigger, iv.P, iv.Spec.AwaitExpr(), iv.A, maxL, describe(maxRec), r.Seq))
+				}
+			}
+			if b.hasL && (!haveL || maxL.Less(b.L)) {
+				maxL, maxRec, haveL = b.L, r, true
+			}
+		}
+		if out.Teardown.Leaked > 0 {
+			add("LEAK", "call-neither-collected-nor-cancelled", fmt.Sprintf("%d hook call goroutines stay parked on their result after teardown", out.Teardown.Leaked))
+		}
+	}
 	bodyRan := map[int]bool{}
 	for _, r := range out.Records {
 		if r.Kind == envlab.KBodyEnter {
